@@ -232,12 +232,20 @@ def p_rechunk(w, p, chunks):
     return Prog(out, p.ref, p.dsk)
 
 
-def p_elemwise(w, op, *ps):
+def scaled(x, factor=1.0):
+    """an element-wise function whose keyword argument changes the values (stands for round(decimals=), clip(min=) ...)"""
+    return x * factor
+
+
+scaled.__symx_kernel__ = True
+
+
+def p_elemwise(w, op, *ps, **user_kwargs):
     import dask_array._blockwise as M
 
-    node = w.space.make(M.Elemwise, op, None, None, True, None, None, *[q.node if isinstance(q, Prog) else q for q in ps])
+    node = w.space.make(M.Elemwise, op, None, None, True, None, dict(user_kwargs) or None, *[q.node if isinstance(q, Prog) else q for q in ps])
     refs = [q.ref if isinstance(q, Prog) else q for q in ps]
-    ref = op(*refs)
+    ref = op(*refs, **user_kwargs)
     dsk = {}
     for q in ps:
         if isinstance(q, Prog):
@@ -370,6 +378,30 @@ def _vindex_prog(w, E, kinds, npts, fixed=None):
     return p_vindex(w, E, src, points)
 
 
+def p_sliding_view(w, E, p, windows, axes):
+    """sliding_window_view(x, windows, axes) alone (windows concrete; an axis may be named more than once, as NumPy allows)"""
+    need = {}
+    for a, win in zip(axes, windows):
+        need[a] = need.get(a, 0) + win - 1
+    for a, d in need.items():
+        E.assume(p.node.shape[a] >= d + 1)
+    coll = w.fn(NC, "new_collection")(p.node)
+    view = w.fn("dask_array._overlap", "sliding_window_view")(coll, tuple(windows), axis=tuple(axes))
+    X = p.ref
+    shape = list(X.shape)
+    for a, d in need.items():
+        shape[a] = shape[a] - d
+    nd = X.ndim
+
+    def at(idx):
+        pos = list(idx[:nd])
+        for k, a in enumerate(axes):
+            pos[a] = pos[a] + idx[nd + k]
+        return X._at(tuple(pos))
+
+    return Prog(view.expr, SArr(tuple(shape) + tuple(windows), at), p.dsk)
+
+
 def p_take(w, E, p, axis, index):
     """x[..., [i, j, ...], ...] through Array.__getitem__ (normalize_index -> slice_wrap_lists -> take -> Shuffle);
     the index values are concrete, the axis is long enough to hold them"""
@@ -470,6 +502,8 @@ def programs(tier):
     reg("concatenate([x2,y2],0)[a:b:-1]", lambda w, E: p_slice(w, p_concat(w, [source(w, E, "x", (2,)), source(w, E, "y", (2,))], 0), raw_index(E, ((1, 1, -1),))), 6)
     reg("x2x2.T+y1x1(rechunk inserted by lowering over a transpose)", lambda w, E: _add_T_coarse(w, E), 4)
     reg("sliding_window_view(x3,W,0).sum(-1)", lambda w, E: p_sliding_sum(w, E, source(w, E, "x", (3,)), 0), 12)
+    reg("sliding_window_view(x3,2,0)", lambda w, E: p_sliding_view(w, E, source(w, E, "x", (3,)), (2,), (0,)), 8)
+    reg("sliding_window_view(x2,(2,2),(0,0))", lambda w, E: p_sliding_view(w, E, source(w, E, "x", (2,)), (2, 2), (0, 0)), 8)
     # point-wise indexing with two integer arrays (entries enumerated by forking; sizes of the other axes symbolic)
     reg("x(2,1)x2.vindex[[p,q],:]... two arrays: x.vindex[[p0,p1],:,[q0,2]]", lambda w, E: _vindex_prog(w, E, ((2, 1), "s", (1, 2)), 2, {(2, 1): 2}), 9)
     reg("x.vindex[:,[p0,1],:,[q0,q1]] (4-d, separated axes)", lambda w, E: _vindex_prog(w, E, ("s", (1, 1), "s", (2,)), 2, {(1, 1): 1}), 9)
@@ -489,6 +523,9 @@ def programs(tier):
     reg("x2[a::2][b:c](strided then offset)", lambda w, E: p_slice(w, p_slice(w, source(w, E, "x", (2,)), raw_index(E, ((1, 0, 2),), "k")), raw_index(E, (F,), "m")), 8)
     reg("rechunk(transpose(x2x2))", lambda w, E: _rechunk_over(w, E, p_transpose(w, source(w, E, "x", (2, 2)), (1, 0)), (2, 1)), 4)
     reg("rechunk(expand_dims(x2,(0,)))", lambda w, E: _rechunk_over(w, E, p_expand(w, source(w, E, "x", (2,)), (0,)), (1, 3)), 3)
+    reg("rechunk(scaled(x2,factor=2.5))", lambda w, E: _rechunk_over(w, E, p_elemwise(w, scaled, source(w, E, "x", (2,)), factor=2.5), (3,)), 4)
+    reg("scaled(x2,factor=2.5)[a:b]", lambda w, E: p_slice(w, p_elemwise(w, scaled, source(w, E, "x", (2,)), factor=2.5), raw_index(E, (F,))), 4)
+    reg("scaled(x2x2,factor=2.5).T", lambda w, E: p_transpose(w, p_elemwise(w, scaled, source(w, E, "x", (2, 2)), factor=2.5), (1, 0)), 2)
     reg("rechunk(x2+y2)", lambda w, E: _rechunk_over(w, E, _add_aligned(w, E, (2,)), (3,)), 4)
     reg("rechunk(concatenate([x2,y2],0))", lambda w, E: _rechunk_over(w, E, p_concat(w, [source(w, E, "x", (2,)), source(w, E, "y", (2,))], 0), (3,)), 6)
     reg("rechunk(concatenate([x2x2,y2x1],1),axis0)", lambda w, E: _rechunk_over(w, E, _concat_axis1(w, E), (1, None)), 5)
